@@ -72,7 +72,7 @@ def theorem_names(pid):
 NOTE_OVERRIDE = {
     'C01': "Hypotheses of the end-to-end theorems: at least one event (ndlCall raises IOError on a zero-event file: proved), CfgOK (2 <= events_per_temporary_file < 2^32, 1 <= n_outcomes_per_job, openmp: outcomes + chunk < 2^32; the error directions outside it are proved and run: stream ndl_chunk_args), Fits32, policy accepts. Label / id order independence is a theorem (ndl_label_order_irrelevant); n_jobs is absent from the model (counting order is covered by it). IEEE-754 rounding (theorems over commutative rings; exact comparison only inside the exact-dyadic domain); malloc/fread success in the kernels.",
     'C02': "partial: micro-step atomicity (an access-level SC interleaving of row-disjoint kernel calls reduces to a micro-step interleaving) is a NAMED assumption, not a theorem; OpenMP's actual scheduling is not observable (theorem under DRF=>SC + result comparison); threading.Lock is a mutex; fair scheduling of started threads. The protocol-to-schedule link is proved (protocol_run_interleaves: every complete non-failing run of the refined queue protocol is an interleaving of the part programs, each exactly once).",
-    'C05': "Learner-level theorems: a repeated name under the default policy, a chunk size >= 2^32, a zero-event file, a missing vector make ndlCall / whModel return the error (ndl_dup_raises, ndl_overflow_raises, ndl_empty_raises, wh_*_raises), and the abstract failing-job oracle of the submit loop is instantiated from the event file (failingJob_iff, conversion_dup_raises). partial: truncated gzip, storage exhaustion and unusable hyper-parameter types have no model value (test only: fault enumeration); wall-clock boundedness is the harness deadline (theorems bound transitions); multiprocessing.Pool re-raises worker exceptions in the caller; every submitted job eventually completes.",
+    'C05': "Learner-level theorems: a repeated name under the default policy, a chunk size >= 2^32, a zero-event file, a missing vector make ndlCall / whModel return the error (ndl_dup_raises, ndl_overflow_raises, ndl_empty_raises, wh_*_raises), and the abstract failing-job oracle of the submit loop is instantiated from the event file (failing_job_iff, conversion_dup_raises). partial: truncated gzip, storage exhaustion and unusable hyper-parameter types have no model value (test only: fault enumeration); wall-clock boundedness is the harness deadline (theorems bound transitions); multiprocessing.Pool re-raises worker exceptions in the caller; every submitted job eventually completes.",
     'C06': "Truncated chunk files are OUTSIDE the property and the theorems (kernel_reads_what_py_reads / kernel_rejects_what_py_rejects are about complete chunks and bad headers; the model's `.truncated` is a marker, the real readers zero-fill / ignore fread's return value); the exception class is not in the model. partial: C memory safety beyond the capacity invariant; little-endian host; fopen failure; n+chunk < 2^32 (row partition wrap needs >= 2^31 rows, not exercisable here).",
     'C07': "gzip and the UTF-8 codec are identity; Python's universal-newline layer is modelled (LF, CR, CRLF); the integer literal parser is a PARAMETER of the model (theorems for every intOf; the instance pyInt mirrors int() on ASCII, a Python-supplied table covers non-ASCII digits); 1 <= step (step = 0 raises: proved and run); container / path-vs-Path / generator dispatch is not in the model (forms_agree is about the parsed events; the forms themselves are test only).",
     'C08': "All three implementations have a model and theorems: OpenMP (whModel), method='numpy' (whNumpyModel) and dict_wh (dictWhModel, PyndlModel/WHPy.lean); the latter two accept exactly one cue and one outcome per event after the duplicate policy (hypothesis IsSingle; AssertionError otherwise: single_event_checks) and on such events equal whR2RSpec / the OpenMP result (wh_numpy_eq_openmp: the same labelled matrix; dict_wh_eq_openmp: at every pair of keys; wh_implementations_alike), continuation included (wh_numpy_continue, dict_wh_continue, *_two_calls); hypotheses: names have rows in the tables, dimension labels distinct for dict_wh and for continued calls. The order in which make_data_array lists cue dimensions is a Python set order (model: first occurrence; statements read through labels). IEEE-754 rounding outside the exact-dyadic domain; xarray dot / label-aligned arithmetic trusted to be the matrix update; OpenMP scheduling under DRF=>SC.",
@@ -98,7 +98,7 @@ TIE = {
     'C06': "write_events / read_binary_file byte for byte vs encodeChunk / decodeChunkPy (small exhaustive + wide + window limits), all five kernel entry points on model-written chunks (incl. > 1024 ids per event, > 2^32-cell matrices and tables, empty file list), bad headers at every position.",
     'C07': "event lists over a hostile Unicode alphabet x containers (lists, strings, tuples, iterators, DataFrames in several shapes) x gzip/plain x compatible x columns= x delimiter=, files character by character vs renderFileWith; frequency cells in every int() spelling, start/step incl. 0; six input forms of the learners from scratch and continuing from weights, with chunking and both methods.",
     'C08': "wh.wh in three flavours (openmp; r2b also with beta1 != beta2), numpy and dict_wh in every shape their signatures allow, vs whModel: tables 1-23 dims with shuffled rows, chunk sizes tied to each dimension, >= 11 chunk files, missing vectors, outcome-less events, chains, given weights with foreign / permuted / repeated labels; every numpy / dict_wh case also vs its own model (whNumpyModel / dictWhModel, the calls of a chain one by one), plus events these two reject (two cues / outcomes, repeats under False, no outcome, names without a vector; which exception, which call) and numpy with given weights.",
-    'C09': "generated corpora x all option combinations (incl. verbose) vs createEvents; failing calls (bad set expression, corpus that stops being UTF-8, raising callable) vs what the model says is left behind; existing event file.",
+    'C09': "generated corpora x all option combinations (incl. verbose) vs createEventFileX (= createEvents on success); failing calls (bad set expression, corpus that stops being UTF-8, raising callable) vs what the model says is left behind; existing event file.",
     'C10': "filter_event_file on generated files x rule kinds x n_jobs 1..8 x chunk sizes x argument containers (list, tuple, set, frozenset, key view; dict / OrderedDict / defaultdict) vs the model; constructor table; idempotence; verbose.",
     'C11': "event and corpus files x n_jobs 0..32 x lower_case vs the driver's direct and strided counts; frequency cells in other int() spellings.",
     'C12': "activation on DataArray (n_jobs 1..6, several memory layouts) and dict-of-dicts weights, events as list / iterator / event-file path (with frequency column), unknown cues, all policies, vs the model; every n_jobs >= 2 case also vs the multi-process model run in a harness-chosen random completion order; one further learning step vs the activation.",
